@@ -198,6 +198,21 @@ func genSchedSpec(p *schedParams, c *Corpus, run int, cold bool) *RunSpec {
 		}
 		spec.Clients = append(spec.Clients, ops)
 	}
+	if rl := root.Split("stall-long"); spec.Stall != nil && !deepBuild && len(spec.Docs) > 0 && rl.Chance(1, 3) {
+		// while one worker's destination is stalled the others go through MANY small calls on the
+		// shared instance (whatever hands out per-call resources round robin, or counts calls,
+		// comes back to the stalled call's)
+		tiny := len(spec.Docs)
+		spec.Docs = append(spec.Docs, []byte("a *b*\n"), []byte("# h\n\n- x\n"))
+		for i := range spec.Clients {
+			if i == spec.Stall.Worker {
+				continue
+			}
+			for k := rl.Range(40, 150); k > 0; k-- {
+				spec.Clients[i] = append(spec.Clients[i], Op{Kind: pick(rl, []string{"Convert", "Convert", "ParseRender"}), Doc: tiny + rl.Intn(2), Stack: "W1"})
+			}
+		}
+	}
 	pol := pick(rs, policies)
 	spec.Policy = pol.name
 	spec.PolicyArg = pick(rs, pol.args)
